@@ -9,10 +9,12 @@ import (
 	"pgregory.net/rapid"
 
 	"verif/h/am"
+	"verif/h/corpus"
 	"verif/h/gen"
 	"verif/h/hx"
 	"verif/h/llvmx"
 	"verif/h/lx"
+	"verif/h/mut"
 	"verif/h/typing"
 )
 
@@ -91,6 +93,58 @@ func TestResultTypes(t *testing.T) {
 			}
 		}
 		hx.SampleCase(test, m.Text())
+	})
+}
+
+func TestExternalCorpus(t *testing.T) {
+	const test = "ExternalCorpus"
+	hx.Rule(test, "real compiler output (clang-14 over corpus/src x flag sets: address spaces from OpenCL, vector and aggregate code, atomics, C++ and Objective-C object models) and rapid-mutated corpus texts, gated by 'LLVM accepts the input, the parser accepts it, LLVM accepts the printed output' (which validates every type the parser attached at every use): for every value-producing instruction, terminator and constant expression the type the parser attached must equal the type the IR library recomputes from the same operands after its cache is cleared, and geps must get the same type from the constructors; non-trivial = module with at least one recomputed type")
+	judgeText := func(tb hx.TB, src, x string) {
+		pm, err, p := lx.Parse(x)
+		if err != nil || p != nil {
+			hx.Discard("parser_does_not_accept(judged_by_C01)")
+			return
+		}
+		fs, st := typing.SelfConsistent(pm, false)
+		hx.HistN("external/instructions_compared", st.Insts)
+		hx.HistN("external/types_recomputed_by_ir", st.Recomputed)
+		hx.HistN("external/constant_expressions_compared", st.Exprs)
+		if len(fs) > 0 {
+			out, pp := lx.Print(pm)
+			if pp != nil || !llvmx.Accept(x).OK || !llvmx.Accept(out).OK {
+				hx.Discard("violation_outside_domain(llvm_rejects_input_or_output)")
+				return
+			}
+			var sb strings.Builder
+			for _, f := range fs {
+				fmt.Fprintf(&sb, "%s: %s\n", f.Where, f.Msg)
+			}
+			hx.Fail(tb, test, "ll", "; source: "+src+"\n"+x, "%s", sb.String())
+		}
+		if st.Recomputed+st.Exprs > 0 {
+			hx.NonTrivial(x)
+		}
+	}
+	for i, c := range corpus.ClangCases() {
+		if !hx.Mine(i) {
+			continue
+		}
+		x := c.Text()
+		if x == "" {
+			hx.Discard("clang_rejects_combination")
+			continue
+		}
+		hx.Eval(1)
+		judgeText(t, "clang-14 "+c.Name(), x)
+	}
+	hx.Check(t, test, hx.N(60, 3000), func(rt *rapid.T) {
+		x, desc, ok := mut.Valid(rt)
+		if !ok {
+			hx.Discard("mutated_text_not_valid_or_not_accepted")
+			return
+		}
+		hx.Eval(1)
+		judgeText(rt, desc, x)
 	})
 }
 
